@@ -116,6 +116,16 @@ func (e *Emulator) Step() (*Step, error) {
 		// are still valid.
 		if rStore, ok := ef.(expr.RegStore); ok && rStore.Key() == expr.IPKey {
 			jumped = true
+
+			// Effects are described for the original position of an
+			// instruction. Jump to the address following the original
+			// position is no jump (see deps), so after the instruction
+			// is moved, it has to continue at its current end.
+			target, _ := expr.ConstUint[model.Addr](rStore.Value().(expr.Const))
+			if target == ins.OrigAddr()+ins.Len() {
+				end := expr.ConstFromUint(uint64(ins.End())).WithWidth(rStore.Width())
+				ef = expr.NewRegStore(end, expr.IPKey, rStore.Width())
+			}
 		}
 
 		s.recordOutput(ef)
